@@ -150,6 +150,26 @@ def construct(run, text, names, times=4):
     return rejected, named, other
 
 
+def odd_literal_programs():
+    """Accepted (with a note at most), hence to be evaluated everywhere: set / set default / default / range bounds
+    carrying a literal that is not a number of the target's type."""
+    from ..ktree import Y, mk_config
+
+    S = lambda n: ["s", n]  # noqa: E731
+    C = lambda v: ["c", v]  # noqa: E731
+    out = []
+    for typ, good, junk in (("int", "5", "abc"), ("hex", "0x10", "zz"), ("float", "1.5", "x.y")):
+        for kind in ("sets", "wsets"):
+            a = mk_config("A", "bool", prompt=Y, defaults=[{"v": ["y"], "c": Y}])
+            a[kind].append({"t": "T", "v": C(junk), "c": Y, "str": False})
+            b = mk_config("B", "bool", prompt=Y, defaults=[{"v": ["n"], "c": Y}])
+            b[kind].append({"t": "T", "v": C(good), "c": Y, "str": False})
+            t = mk_config("T", typ, prompt=Y, defaults=[{"v": C(good), "c": Y}], ranges=[{"lo": C(good), "hi": C(junk), "c": S("B")}])
+            obs = mk_config("OBS", "bool", defaults=[{"v": ["y"], "c": ["=", S("T"), C(good)]}])
+            out.append({"prog": [a, b, t, obs], "ord": [["s", "A"], ["s", "B"], ["s", "T"], ["s", "OBS"]], "family": "F-oddlit"})
+    return out
+
+
 def evaluate_everywhere(run, text, prog, rng):
     """Accepted trees: every value / output computable in several configurations."""
     info = ktree.sym_info(prog)
@@ -173,7 +193,7 @@ def evaluate_everywhere(run, text, prog, rng):
 def main(run):
     tier = run.tier
     rng = random.Random(run.seed)
-    base = lattice.edge_lattice() + lattice.setsym_lattice()
+    base = lattice.edge_lattice() + lattice.setsym_lattice() + odd_literal_programs()
     lat = [p for p in lattice.prec_lattice(tier) if p["family"] in ("F-nest", "F-choice")]
     if tier == "quick":
         base += lat[::9] + ktree.generate(run.seed + 900, 25)
